@@ -1156,11 +1156,11 @@ func init() {
 	register(&property{
 		Meta: propertyMeta{
 			ID:          "C15",
-			Explanation: "Only the second sentence of the property (the BuildURL->Match round trip is not decidable in this family): (C15-INDEX) every API that names a route maintains the name index with last-writer-wins: stores to Route.name occur only in constructors (the route is indexed by appendRoute when registered) or paired on the same path with namedRoutes[sameName] = sameRoute (NamedTo); appendRoute writes namedRoutes[route.name] = route on every path with a non-empty name, before any return; the index is written nowhere else and never deleted from; GetRoute is a plain lookup and BuildURL resolves through it; ToURL builds from the route's own registered pattern. (C15-MEMO) ToURL re-uses a caller-supplied builder through Path(route.path).Build(...): the builder type holds no state derived from its own settings that can go stale — every store into a field of an existing BuildRequestURL whose value depends on a load of another field (placeholders parsed from the path, ...) is either recomputed/invalidated in every function that assigns that other field, or is a keyed memo whose key is re-validated on every path to every use; a virtual type with a stale memo is analysed on every run and must be reported. (C01-SPACE) the text ToURL hands to the builder is literal-space: it is the route's pattern field(s), and nothing that went through the regex escaping steps (quotePointChar, checkAndParseOptional) is ever stored into Route.path / Route.start / a read Route.spath or returned as the table key. (C15-ESCAPE) no store into net/url.URL.Path in the root package derives from PathEscape, QueryEscape, EscapedPath, String, RequestURI or Values.Encode. (C15-SCAN) Build (or a function it reaches by static calls) applies a Find* method of the package variable varRegex to text from the builder's path field; parseParamRoute does the same with the route path.",
+			Explanation: "Only the second sentence of the property (the BuildURL->Match round trip is not decidable in this family): (C15-INDEX) every API that names a route maintains the name index with last-writer-wins: stores to Route.name occur only in constructors (the route is indexed by appendRoute when registered) or paired on the same path with namedRoutes[sameName] = sameRoute (NamedTo); appendRoute writes namedRoutes[route.name] = route on every path with a non-empty name, before any return; the index is written nowhere else and never deleted from; GetRoute is a plain lookup and BuildURL resolves through it; ToURL builds from the route's own registered pattern. (C15-MEMO) ToURL re-uses a caller-supplied builder through Path(route.path).Build(...): the builder type holds no state derived from its own settings that can go stale — every store into a field of an existing BuildRequestURL whose value depends on a load of another field (placeholders parsed from the path, ...) is either recomputed/invalidated in every function that assigns that other field, or is a keyed memo whose key is re-validated on every path to every use; a virtual type with a stale memo is analysed on every run and must be reported. (C01-SPACE) the text ToURL hands to the builder is literal-space: it is the route's pattern field(s), and nothing that went through the regex escaping steps (quotePointChar, checkAndParseOptional) is ever stored into Route.path / Route.start / a read Route.spath or returned as the table key. (C15-ESCAPE) no store into net/url.URL.Path in the root package derives from PathEscape, QueryEscape, EscapedPath, String, RequestURI or Values.Encode. (C15-SCAN) Build (or a function it reaches by static calls) applies a Find* method of the package variable varRegex to text from the builder's path field; parseParamRoute does the same with the route path. (C15-ARGS) in ToURL, Build, BuildURL, BuildRequestURL and the module functions they call, no MapUpdate / delete / clear has a map operand that can be a parameter, an element of a parameter slice or an assertion of one.",
 			NotDecided:  []string{"the substitution itself in BuildRequestURL.Build: placeholder grammar, escaping, query parameters", "that Match on the built path returns the same route and values (value-level string round trip through net/url)"},
 			Assumptions: []string{"Go map assignment overwrites (last writer wins)"},
 		},
-		Rules: []ruleFn{{"C15-INDEX", ruleC15Index}, {"C15-MEMO", ruleC15Memo}, {"C15-ESCAPE", ruleC15Escape}, {"C15-SCAN", ruleC15Scan}, {"C01-SPACE", ruleC01Space}, {"C11-ENC", ruleC11Enc}},
+		Rules: []ruleFn{{"C15-INDEX", ruleC15Index}, {"C15-MEMO", ruleC15Memo}, {"C15-ESCAPE", ruleC15Escape}, {"C15-SCAN", ruleC15Scan}, {"C15-ARGS", ruleC15Args}, {"C01-SPACE", ruleC01Space}, {"C11-ENC", ruleC11Enc}},
 	})
 	register(&property{
 		Meta: propertyMeta{
@@ -1456,7 +1456,27 @@ func ruleC15Memo(r *Run) {
 	for _, bc := range callsToFn(toURL, build) {
 		recv := bc.Common().Args[0]
 		pc, isCall := recv.(*ssa.Call)
-		if !isCall || staticCallee(pc) != pathSetter || !flowsFrom(pc.Call.Args[1], func(x ssa.Value) bool { return isLoadOfField(x, pathF) }) {
+		fromRoute := func(v ssa.Value) bool {
+			return flowsFrom(v, func(x ssa.Value) bool { return isLoadOfField(x, pathF) })
+		}
+		if isCall && staticCallee(pc) == pathSetter && fromRoute(pc.Call.Args[1]) {
+			continue
+		}
+		// or: a builder made right here whose path field is given the route's pattern (composite literal)
+		okLit := false
+		if al, isAl := recv.(*ssa.Alloc); isAl {
+			bpath := w.Field("rux", "BuildRequestURL", "path")
+			for _, ref := range *al.Referrers() {
+				if fa, isFA := ref.(*ssa.FieldAddr); isFA && fieldVar(fa.X.Type(), fa.Field) == bpath {
+					for _, r2 := range *fa.Referrers() {
+						if st, isSt := r2.(*ssa.Store); isSt && st.Addr == ssa.Value(fa) && fromRoute(st.Val) && dominates(st, bc.(ssa.Instruction)) {
+							okLit = true
+						}
+					}
+				}
+			}
+		}
+		if !okLit {
 			okSet = false
 		}
 	}
@@ -1784,4 +1804,117 @@ func ruleC15Scan(r *Run) {
 		posP = tm.parse.Pos()
 	}
 	r.Check(rule, FuncName(tm.parse)+":placeholders found by varRegex", posP, okP, map[bool]string{true: "registration cuts the route path into placeholders with varRegex", false: "registration does not find the placeholders of the route path with varRegex"}[okP])
+}
+
+// ---------------------------------------------------------------------------
+// C15-ARGS: the URL builders only read the argument map the caller hands in
+
+// ruleC15Args: BuildURL / ToURL / Build take the caller's M by reference. "Additional non-variable arguments appear
+// as query parameters" has to hold for every call, also the second one with the same map — so the map is read-only
+// for rux: no map update and no delete on a map that can be the caller's (a parameter, an element of the variadic
+// argument list, or an assertion of one).
+func ruleC15Args(r *Run) {
+	w := r.W
+	rule := "C15-ARGS"
+	roots := []*ssa.Function{w.Fn("rux", "Route.ToURL"), w.Fn("rux", "BuildRequestURL.Build")}
+	for _, n := range []string{"Router.BuildURL", "Router.BuildRequestURL"} {
+		if f := w.FnOpt("rux", n); f != nil {
+			roots = append(roots, f)
+		}
+	}
+	seen := map[*ssa.Function]bool{}
+	var fns []*ssa.Function
+	var add func(f *ssa.Function, d int)
+	add = func(f *ssa.Function, d int) {
+		if f == nil || seen[f] || f.Blocks == nil || !w.InModule(f) || d > 3 {
+			return
+		}
+		seen[f] = true
+		fns = append(fns, f)
+		for _, c := range calleesOf(w, f) {
+			add(c, d+1)
+		}
+	}
+	for _, f := range roots {
+		add(f, 0)
+	}
+	n, nBad := 0, 0
+	for _, f := range fns {
+		eachInstr(f, func(in ssa.Instruction) {
+			var mp ssa.Value
+			switch x := in.(type) {
+			case *ssa.MapUpdate:
+				mp = x.Map
+			case *ssa.Call:
+				if isBuiltin(x, "delete") || isBuiltin(x, "clear") {
+					mp = x.Call.Args[0]
+				}
+			}
+			if mp == nil {
+				return
+			}
+			n++
+			// the caller's map: derives from a parameter of the function (other than the receiver's own fields)
+			callers := aliasesParam(mp, f)
+			if callers {
+				nBad++
+				r.Check(rule, fmt.Sprintf("%s:writes the argument map#%d", FuncName(f), nBad), w.InstrPos(in), false, "the URL builder updates or deletes from a map that can be the caller's own argument map: a second BuildURL / ToURL call with the same M finds its query arguments (or variables) gone")
+			}
+		})
+	}
+	r.Check(rule, "URL builders:argument maps are read-only", token.NoPos, nBad == 0, fmt.Sprintf("%d map write(s) in %d function(s) of the URL builders, none on a map that can be the caller's", n, len(fns)))
+}
+
+// aliasesParam: the value can BE (not merely be computed from) a parameter of f, an element of a parameter slice or
+// an assertion of one — followed through phis, local cells, assertions and element loads only.
+func aliasesParam(v ssa.Value, f *ssa.Function) bool {
+	seen := map[ssa.Value]bool{}
+	var walk func(v ssa.Value, d int) bool
+	walk = func(v ssa.Value, d int) bool {
+		if v == nil || seen[v] || d > 30 {
+			return false
+		}
+		seen[v] = true
+		switch x := v.(type) {
+		case *ssa.Parameter:
+			if x.Parent() != f {
+				return false
+			}
+			return !(f.Signature.Recv() != nil && len(f.Params) > 0 && x == f.Params[0])
+		case *ssa.Phi:
+			for _, e := range x.Edges {
+				if walk(e, d+1) {
+					return true
+				}
+			}
+		case *ssa.TypeAssert:
+			return walk(x.X, d+1)
+		case *ssa.ChangeType:
+			return walk(x.X, d+1)
+		case *ssa.Extract:
+			if ta, ok := x.Tuple.(*ssa.TypeAssert); ok {
+				return walk(ta.X, d+1)
+			}
+		case *ssa.Slice:
+			return walk(x.X, d+1)
+		case *ssa.UnOp:
+			if x.Op != token.MUL {
+				return false
+			}
+			switch a := x.X.(type) {
+			case *ssa.IndexAddr:
+				return walk(a.X, d+1)
+			case *ssa.Alloc:
+				for _, ref := range *a.Referrers() {
+					if st, ok := ref.(*ssa.Store); ok && st.Addr == ssa.Value(a) && walk(st.Val, d+1) {
+						return true
+					}
+				}
+			}
+		case *ssa.Index:
+			return walk(x.X, d+1)
+		}
+		return false
+	}
+	return walk(v, 0)
 }
